@@ -280,9 +280,16 @@ def join_kinds(kinds):
         return "any"
     if len(ks) == 1:
         return next(iter(ks))
-    if all(k.startswith("ref:") for k in ks):
-        return "ref:Block" if all(True for _ in ks) else "any"
+    if all(k.startswith("ref:") for k in ks) and _ENGINE[0] is not None:
+        eng = _ENGINE[0]
+        names = [k[4:] for k in ks]
+        for cand in (eng.repo.mro(names[0]) if names[0] in eng.repo.classes else []):
+            if all(eng.is_subclass(n, cand) for n in names):
+                return "ref:" + cand
     return "any"
+
+
+_ENGINE = [None]
 
 
 def ite(eng, st, c, a, b):
@@ -586,6 +593,8 @@ def index_value(eng, o, i, st, fr, k):
         return eng.branch(st, o.t != 0, lambda s_: index_value(eng, inner_, i, s_, fr, k),
                           lambda s_: eng.raise_new(s_, "TypeError"), "optional")
     from .symex import EngineError
+    if isinstance(o, SSnap):
+        return k(st, from_sort(o.elemkind, z3.Select(o.elems, as_int(i))))
     if isinstance(o, SRef) and o.kind.startswith("list:"):
         if not isinstance(i, (SInt, SBool)):
             raise EngineError("list index of non-int")
@@ -896,6 +905,10 @@ def list_comp(eng, e, st, fr, k):
         finally:
             s.spec = saved_spec
         elt, keep = holder["elt"], holder["keep"]
+        if isinstance(elt, SFunc) and elt.what == "typeof":
+            # type(x) as a value: the class id of x
+            tv = elt.payload
+            elt = SInt(eng.cls_term(s, tv.t if not isinstance(tv, SDyn) else PyVal.rval(tv.t)))
         if isinstance(elt, STuple):
             # a fresh tuple object per element: identities are not observable, contents are not modelled
             tarr = fresh("tuples", z3.ArraySort(IntS, IntS))
@@ -1017,8 +1030,10 @@ def dict_comp(eng, e, st, fr, k):
 
 
 def set_comp(eng, e, st, fr, k):
-    from .symex import EngineError
-    raise EngineError("set comprehension")
+    """{f(x) for x in xs}: the set of the mapped list (list comprehension followed by set())"""
+    from .builtins_calls import set_from
+    lc = ast.ListComp(elt=e.elt, generators=e.generators)
+    return list_comp(eng, lc, st, fr, lambda s, lv: set_from(eng, lv, s, fr, k, "set:" + lv.kind[5:]))
 
 
 def unpack(eng, v, n, st, fr, k):
@@ -1171,6 +1186,23 @@ def _cls_is(eng, e, st, fr, k):
     return eng.ev(e.args[0], st, fr, got)
 
 
+def _ghost(eng, e, st, fr, k):
+    """ghost('name') -> ghost int;  ghost('name', i) -> i-th element of a ghost int array"""
+    name = e.args[0].value
+    if len(e.args) == 1:
+        return k(st, SInt(st.heap.get(("g", name, "int"))))
+    return eng.ev(e.args[1], st, fr, lambda s, i: k(s, SInt(z3.Select(s.heap.get(("g", name, "arr")), i.t))))
+
+
+def _ghost_str(eng, e, st, fr, k):
+    return k(st, SStr(st.heap.get(("g", e.args[0].value, "str"))))
+
+
+def _ref_id(eng, e, st, fr, k):
+    """ref_id(x): the identity of object x as an int (for comparison with ghost arrays)"""
+    return eng.ev(e.args[0], st, fr, lambda s, v: k(s, SInt(0) if isinstance(v, SNone) else SInt(PyVal.rval(v.t) if isinstance(v, SDyn) else v.t)))
+
+
 def _same_class(eng, e, st, fr, k):
     """same_class(a, b): a and b have the same dynamic class"""
     def got(s, a):
@@ -1246,7 +1278,7 @@ def _modconst(eng, e, st, fr, k):
     return k(st, eng.const_value(node, mod, st, fr))
 
 
-SPECIAL_FORMS = {"same_class": _same_class, "existed": _existed, "content_unchanged": _content_unchanged, "modconst": _modconst, "nlines": _nlines, "joined": _joined, "truthy": _truthy, "isint": _isint, "isnone": _isnone,
+SPECIAL_FORMS = {"ghost_str": _ghost_str, "ghost": _ghost, "ref_id": _ref_id, "same_class": _same_class, "existed": _existed, "content_unchanged": _content_unchanged, "modconst": _modconst, "nlines": _nlines, "joined": _joined, "truthy": _truthy, "isint": _isint, "isnone": _isnone,
                  "dict_key_at": _dict_key_at, "str_of": _str_of, "forall": _quant("forall"), "exists": _quant("exists"), "implies": _implies, "old": _old,
                  "fresh": _fresh, "allocated": _allocated, "unchanged": _unchanged, "isstr": _isstr,
                  "sval": _sval, "ival": _ival, "cls_is": _cls_is, "same": _same_obj, "as_ref": _as_ref}
